@@ -1936,6 +1936,84 @@ def alg_problems(a, out=None):
     return out
 
 
+def _scope_forget(ctx, rel, ann, must, may):
+    """mirror of Safe.lean `scopeForget`: only variables the context may bind matter"""
+    return scope_problems([i for i in rel if i in ctx], ann, must, may)
+
+
+def _scope_remember(ctx, rel, ann, must, may):
+    """mirror of Safe.lean `scopeRemember`: 'bound but not listed' (K2) matters whatever the context"""
+    out = set()
+    for i in rel:
+        if i in ctx and i in ann and i not in must:
+            out.add("K1" if i in may else "K3")
+        if i in may and i not in ann:
+            out.add("K2")
+    return out
+
+
+def alg_problems_in(a, ctx=(), out=None):
+    """set of reasons why `Alg.safeIn a ctx` is false (empty set = safe in every context binding at most `ctx`);
+    mirror of RV/C04/Safe.lean `Alg.safeIn` (round g: the context-sensitive `Safe`)"""
+    out = set() if out is None else out
+    ctx = list(ctx)
+    k = a[0]
+
+    def ex(e):
+        kk = e[0]
+        if kk == "cmp":
+            ex(e[2]); ex(e[3])
+        elif kk in ("and", "or"):
+            ex(e[1]); ex(e[2])
+        elif kk == "not":
+            ex(e[1])
+        elif kk in ("exists", "nexists"):
+            if not _exists_ok(e[1]):
+                out.add("exists-unsupported")
+    if k in ("bgp", "values"):
+        pass
+    elif k == "join":
+        alg_problems_in(a[2], ctx, out)
+        alg_problems_in(a[3], ctx + alg_may(a[2]) if a[1] == "1" else ctx, out)
+    elif k == "union":
+        alg_problems_in(a[1], ctx, out); alg_problems_in(a[2], ctx, out)
+    elif k == "filter":
+        alg_problems_in(a[2], ctx, out); ex(a[1])
+        if a[4] == "1":
+            out.add("noiso")
+        out |= _scope_forget(ctx, expr_vars(a[1]), _ints(a[3]), alg_must(a[2]), alg_may(a[2]))
+    elif k == "extend":
+        alg_problems_in(a[1], ctx, out); ex(a[3])
+        v = int(a[2])
+        if v in alg_may(a[1]) or v in expr_vars(a[3]):
+            out.add("illformed-bind")
+        out |= _scope_forget(ctx, expr_vars(a[3]), _ints(a[4]), alg_must(a[1]), alg_may(a[1]))
+    elif k == "project":
+        alg_problems_in(a[1], [], out)
+    elif k == "graph":
+        alg_problems_in(a[2], ctx, out)
+    elif k == "minus":
+        alg_problems_in(a[1], ctx, out); alg_problems_in(a[2], [], out)
+        if a[3] == "none":
+            out.add("exists-unsupported")
+        else:
+            out |= _scope_remember(ctx, alg_may(a[2]), _ints(a[3]), alg_must(a[1]), alg_may(a[1]))
+        if a[4] != "none" and any(v not in _ints(a[4]) for v in alg_may(a[2])):
+            out.add("K2")
+    elif k == "leftjoin":
+        alg_problems_in(a[1], ctx, out); alg_problems_in(a[2], ctx + alg_may(a[1]), out); ex(a[3])
+        p1 = None if a[4] == "none" else _ints(a[4])
+        own = [] if (a[4] == "none" or a[5] == "none") else _ints(a[4]) + _ints(a[5])
+        out |= _scope_forget(ctx, expr_vars(a[3]), own, alg_must(a[1]) + alg_must(a[2]), alg_may(a[1]) + alg_may(a[2]))
+        if p1 is None:
+            out.add("exists-unsupported")
+        else:
+            out |= _scope_remember(ctx, alg_may(a[2]) + expr_vars(a[3]), p1, alg_must(a[1]), alg_may(a[1]))
+    else:
+        raise ValueError(a)
+    return out
+
+
 def alg_in_fragment(a):
     k = a[0]
     if k in ("bgp", "values"):
@@ -2019,7 +2097,9 @@ def node_vars(a):
     if k == "union":
         return node_vars(a[1]) | node_vars(a[2])
     if k == "leftjoin":
-        return node_vars(a[1]) | node_vars(a[2]) | expr_annot_vars(a[3])
+        # the condition binds nothing: since main's repair "the condition of an OPTIONAL binds nothing" `_addVars`
+        # leaves the `expr` child out, as it does for Filter and Extend
+        return node_vars(a[1]) | node_vars(a[2])
     if k == "filter":
         return node_vars(a[2])
     if k == "extend":
@@ -2069,3 +2149,37 @@ def annotation_mismatches(a, out=None):
     else:
         raise ValueError(a)
     return out
+
+
+def annot_line(a):
+    """the annotations found on rdflib's own tree (outside EXISTS), in pre-order, as the driver's `annot` command prints
+    those that the Lean model of `analyse` / `_addVars` (RV/C04/Analysis.lean) computes for the same tree"""
+    out = []
+
+    def sset(v):
+        return "none" if v == "none" else ",".join(str(x) for x in sorted(set(_ints(v))))
+
+    def walk(a):
+        k = a[0]
+        if k in ("bgp", "values"):
+            return
+        if k == "join":
+            out.append("J" + a[1]); walk(a[2]); walk(a[3])
+        elif k == "union":
+            walk(a[1]); walk(a[2])
+        elif k == "leftjoin":
+            out.append("L" + sset(a[4]) + "|" + sset(a[5])); walk(a[1]); walk(a[2])
+        elif k == "filter":
+            out.append("F" + sset(a[3])); walk(a[2])
+        elif k == "extend":
+            out.append("E" + sset(a[4])); walk(a[1])
+        elif k == "minus":
+            out.append("M" + sset(a[3]) + "|" + sset(a[4])); walk(a[1]); walk(a[2])
+        elif k == "graph":
+            walk(a[2])
+        elif k == "project":
+            walk(a[1])
+        else:
+            raise ValueError(a)
+    walk(a)
+    return "annot " + " ".join(out)
